@@ -100,6 +100,12 @@ def gen_project(rnd, idx):
         text = "".join(body)
         if rnd.random() < 0.3:
             text = text.replace("\n\n", "\n\n// noise\n\n", 1)
+        if rnd.random() < 0.3:
+            # what a Rust source file may legally start with before its first item
+            lead = rnd.choice(["#!/usr/bin/env rust-script\n", "#!/usr/bin/env -S cargo +nightly -Zscript\n", "\ufeff", "\ufeff#!/usr/bin/env rust-script\n", "#![allow(dead_code)]\n",
+                               "//! crate documentation\n//! second line\n", "/*! block doc */\n", "\n\n\n", "#!/bin/sh\n#![allow(unused)]\n"])
+            text = lead + text
+            feats.add("file-lead:" + repr(lead)[1:12])
         files.append((path, text))
     if idx % 6 == 1:
         # two different commands whose names camelCase to one TypeScript identifier: each still needs its own wrapper
@@ -112,6 +118,16 @@ def gen_project(rnd, idx):
             truth[nm] = {"attr": akey, "vis": "pub", "async": False, "ret": ("num",), "pre": 0, "post": 0, "layout": "plain", "file": "colliding.rs", "depth": 0}
         files.append(("colliding.rs", rg.PRELUDE + extra))
         feats.add("camelCase-colliding-command-names")
+    if idx % 6 == 4:
+        # commands named like what commands.ts itself binds (`import { invoke }`, `import * as types`): the wrapper must still reach
+        # Tauri's invoke, not itself
+        akey, atext = ATTRS[0]
+        extra = ""
+        for nm in rnd.sample(["invoke", "types", "invoke_", "types_", "listen", "channel"], 3):
+            extra += rg.command_src(nm, rnd.choice(PARAM_LAYOUTS[:3]), "i32", False, atext, "pub ")
+            truth[nm] = {"attr": akey, "vis": "pub", "async": False, "ret": ("num",), "pre": 0, "post": 0, "layout": "plain", "file": "bindings.rs", "depth": 0}
+        files.append(("bindings.rs", rg.PRELUDE + extra))
+        feats.add("commands-named-like-module-bindings")
     if not truth:
         name, src, info = command()
         info["file"] = "lib.rs"
@@ -190,7 +206,12 @@ def run_case(a):
             res["viol"].append(("C03 commands.ts-does-not-parse " + pf[0], pf[1]))
             return dict(res, witness=proj.witness_of(files, mode))
         seen = {}
+        from .. import resolve
+        bound = resolve.ModInfo("commands.ts", out.mods["commands.ts"]).imports
         for fname, lst in out.commands().items():
+            if fname in bound:
+                res["viol"].append(("C03 wrapper-takes-the-name-of-an-import", "the wrapper for %s is exported as %s, which commands.ts also imports from %s: the call inside it no longer reaches Tauri's invoke / the types module" % (
+                    sorted(str(c["invoke_name"]) for c in lst), fname, bound[fname][0])))
             if len(lst) > 1:
                 res["viol"].append(("C03 several-wrappers-exported-under-one-name", "%d wrappers are exported as %s (invoking %s): only one of them is callable" % (
                     len(lst), fname, sorted(str(c["invoke_name"]) for c in lst))))
